@@ -5,6 +5,7 @@ CONSTANTS
   MKeyAtoms = {}
   Enabled <- EnabledA
 VIEW View
+CONSTRAINT KeyLeavesSet
 INVARIANT TypeOK
 PROPERTY SetGetFrame
 PROPERTY DeleteExact
